@@ -26,7 +26,8 @@ IntTerms == UNION { LET b == IntBounds(k) IN
             \cup {[k |-> "u128", n |-> P(127)], [k |-> "u128", n |-> ZAdd(P(127), ZOne)], [k |-> "u64", n |-> P(63)]}
 F32Max == FNorm(1, MSub(MPow2(24), <<1>>), 104)
 FloatTerms == {[k |-> kk, f |-> f] : kk \in {"f32", "f64"}, f \in {FZero(1), FZero(-1), FNorm(1, <<3>>, -1), FNorm(-1, <<1>>, -149), F32Max, FInf(1), FInf(-1), FNaN}}
-              \cup {[k |-> "f64", f |-> FNorm(1, MFromDigits(<<3,6,0,2,8,7,9,7,0,1,8,9,6,3,9,7>>), -55)], [k |-> "f64", f |-> FNorm(1, <<1>>, -1074)]}
+              \cup {[k |-> "f64", f |-> FNorm(1, MFromDigits(<<3,6,0,2,8,7,9,7,0,1,8,9,6,3,9,7>>), -55)], [k |-> "f64", f |-> FNorm(1, <<1>>, -1074)],
+                    [k |-> "f32", f |-> FNorm(1, MFromNat(13421773), -27)], [k |-> "f32", f |-> FNorm(-1, MFromNat(10066330), -25)]}
 Scalars == IntTerms \cup FloatTerms
   \cup {[k |-> "bool", b |-> TRUE], [k |-> "bool", b |-> FALSE], [k |-> "char", c |-> 97], [k |-> "char", c |-> 233], [k |-> "char", c |-> 128512],
         [k |-> "str", cs |-> <<>>], [k |-> "str", cs |-> S("k")], [k |-> "str", cs |-> <<104, 233, 128512>>],
